@@ -74,7 +74,7 @@ type tres struct {
 	After       int64    `json:"after"`  // ticks after the first tick that observed closed
 	Capped      bool     `json:"capped"` // harness had to stop the guest
 	Cap         int64    `json:"cap"`
-	Reopened    bool     `json:"reopened,omitempty"`     // IsClosed went back to false
+	Reopened    bool     `json:"reopened,omitempty"`      // IsClosed went back to false
 	CloseSyncNo bool     `json:"close_sync_no,omitempty"` // CloseWithExitCode returned but IsClosed() false
 	NeverClosed bool     `json:"never_closed,omitempty"`  // closed never became visible within the watchdog
 	CtrlDone    bool     `json:"ctrl_done,omitempty"`     // harness' own watcher goroutine saw ctx.Done (control of NeverClosed)
@@ -87,7 +87,7 @@ type tres struct {
 	LaterCode   uint32   `json:"later_code"`
 	HostCalls   int      `json:"host_calls,omitempty"`
 	HostAfter   int64    `json:"host_after,omitempty"` // nested guest calls made by host functions after the close
-	HostBad     []string `json:"host_bad,omitempty"` // nested guest calls that did not fail after close
+	HostBad     []string `json:"host_bad,omitempty"`   // nested guest calls that did not fail after close
 	NestedErrs  []string `json:"nested_errs,omitempty"`
 	Skipped     string   `json:"skipped,omitempty"`
 	Wasm        []string `json:"wasm_hex,omitempty"`
@@ -125,16 +125,16 @@ func rtConfig(engine string) wazero.RuntimeConfig {
 }
 
 type tstate struct {
-	tc      tcase
-	prog    *program
-	res     *tres
-	ctx     context.Context
-	cancel  context.CancelFunc
-	mod     api.Module // entry module once known
-	cap     int64
-	ctrl    atomic.Bool
-	want    uint32
-	seen    api.Module
+	tc     tcase
+	prog   *program
+	res    *tres
+	ctx    context.Context
+	cancel context.CancelFunc
+	mod    api.Module // entry module once known
+	cap    int64
+	ctrl   atomic.Bool
+	want   uint32
+	seen   api.Module
 }
 
 func (st *tstate) module(caller api.Module) api.Module {
@@ -362,26 +362,29 @@ func runTicked(tc tcase, keepWasm bool) *tres {
 		res.BuildErr = "host module: " + err.Error()
 		return res
 	}
-	// the call's context
-	switch tc.Cause {
-	case "cancel":
-		st.ctx, st.cancel = context.WithCancel(bg)
-	case "deadline":
-		if tc.Moment < 0 {
-			st.ctx, st.cancel = context.WithDeadline(bg, time.Now().Add(-time.Hour))
-		} else {
-			st.ctx, st.cancel = context.WithTimeout(bg, deadlineD)
+	// the call's context is created right before the call starts (a deadline must not run out during set-up)
+	mkctx := func() {
+		switch tc.Cause {
+		case "cancel":
+			st.ctx, st.cancel = context.WithCancel(bg)
+		case "deadline":
+			if tc.Moment < 0 {
+				st.ctx, st.cancel = context.WithDeadline(bg, time.Now().Add(-time.Hour))
+			} else {
+				st.ctx, st.cancel = context.WithTimeout(bg, deadlineD)
+			}
+		default:
+			st.ctx, st.cancel = bg, func() {}
 		}
-	default:
-		st.ctx, st.cancel = bg, func() {}
+		if done := st.ctx.Done(); done != nil {
+			go func() { // the harness' own watcher: control for "module never became closed"
+				<-done
+				st.ctrl.Store(true)
+			}()
+		}
 	}
-	defer st.cancel()
-	go func() { // the harness' own watcher: control for "module never became closed"
-		if st.ctx.Done() != nil {
-			<-st.ctx.Done()
-			st.ctrl.Store(true)
-		}
-	}()
+	st.cancel = func() {}
+	defer func() { st.cancel() }()
 	// instantiate everything but the entry module
 	var compiled []wazero.CompiledModule
 	for _, mb := range prog.Mods {
@@ -402,6 +405,7 @@ func runTicked(tc tcase, keepWasm bool) *tres {
 	cfg := wazero.NewModuleConfig().WithName(prog.Mods[last].Name)
 	var callErr error
 	if prog.Start {
+		mkctx()
 		if tc.Moment < 0 {
 			st.cancel() // cancel: cancelled before; deadline: already past
 		}
@@ -417,6 +421,7 @@ func runTicked(tc tcase, keepWasm bool) *tres {
 			return res
 		}
 		st.mod = mod
+		mkctx()
 		if tc.Moment < 0 {
 			res.Fired, res.FiredAt = true, -1
 			switch tc.Cause {
@@ -489,8 +494,8 @@ type wres struct {
 	WaitedS         int    `json:"waited_s"` // informational
 	CPUms           int    `json:"cpu_ms"`   // informational
 	// BudgetNotReached: the subject did not return but the process was not given hangCPU of CPU either
-	BudgetNotReached bool `json:"budget_not_reached,omitempty"`
-	Wasm            []string `json:"wasm_hex,omitempty"`
+	BudgetNotReached bool     `json:"budget_not_reached,omitempty"`
+	Wasm             []string `json:"wasm_hex,omitempty"`
 }
 
 func runWatchdog(tc tcase, keepWasm bool) *wres {
